@@ -18,6 +18,7 @@ type SpecEnv struct {
 	heap   *Heap
 	old    *SpecEnv
 	before map[string]TV
+	loopHeap *Heap // heap on entry of the loop whose invariant is being evaluated (atloop)
 	bound  map[string]TV
 	fn     *ssa.Function
 	outOfScope func(name string) (TV, bool) // a local of the function that is not in scope at this point
@@ -474,6 +475,14 @@ func (v *VC) evCall(x SCall, env *SpecEnv) TV {
 		ne := *env
 		ne.heap = env.old.heap
 		return v.ev(x.Args[0], &ne)
+	case "atloop":
+		// atloop(e): e with the current values of variables, read in the heap the loop was entered with
+		if env.loopHeap == nil {
+			specPanic("atloop() is only available in a loop invariant")
+		}
+		ne := *env
+		ne.heap = env.loopHeap
+		return v.ev(x.Args[0], &ne)
 	case "before":
 		id, ok := x.Args[0].(SIdent)
 		if !ok {
@@ -770,6 +779,14 @@ func (v *VC) lookupGoType(fn *ssa.Function, name string) types.Type {
 	}
 	star := strings.HasPrefix(name, "*")
 	name = strings.TrimPrefix(name, "*")
+	if !strings.Contains(name, ".") {
+		if tn, ok := types.Universe.Lookup(name).(*types.TypeName); ok {
+			if star {
+				return types.NewPointer(tn.Type())
+			}
+			return tn.Type()
+		}
+	}
 	var tp *types.Package = fn.Pkg.Pkg
 	tn := name
 	if i := strings.Index(name, "."); i > 0 {
